@@ -714,10 +714,18 @@ impl<'de, R: Read<'de>> Parser<R> {
                 }
             }
             Token::Quotation(name) => {
+                self.remaining_depth -= 1;
+                if self.remaining_depth == 0 {
+                    self.remaining_depth += 1;
+                    return Err(self.peek_error(ErrorCode::RecursionLimitExceeded));
+                }
+
+                let ret = self.next_value();
+
+                self.remaining_depth += 1;
+
                 // TODO: more specific error
-                let datum = self
-                    .next_value()?
-                    .ok_or_else(|| self.peek_error(ErrorCode::EofWhileParsingList))?;
+                let datum = ret?.ok_or_else(|| self.peek_error(ErrorCode::EofWhileParsingList))?;
                 Value::list(vec![Value::symbol(name), datum])
             }
         };
@@ -806,11 +814,20 @@ impl<'de, R: Read<'de>> Parser<R> {
                 }
             }
             Token::Quotation(name) => {
-                // TODO: more specific error
                 let token_end = self.read.position();
-                let quoted = self
-                    .next_datum()?
-                    .ok_or_else(|| self.peek_error(ErrorCode::EofWhileParsingList))?;
+
+                self.remaining_depth -= 1;
+                if self.remaining_depth == 0 {
+                    self.remaining_depth += 1;
+                    return Err(self.peek_error(ErrorCode::RecursionLimitExceeded));
+                }
+
+                let ret = self.next_datum();
+
+                self.remaining_depth += 1;
+
+                // TODO: more specific error
+                let quoted = ret?.ok_or_else(|| self.peek_error(ErrorCode::EofWhileParsingList))?;
                 Datum::quotation(name, quoted, Span::new(start, token_end))
             }
         };
